@@ -79,8 +79,10 @@ def generate_vasicek(
     output[:, 0] = init_state[0]
 
     # Cast to Tensor with desired dtype and device
-    kappa, theta, sigma, dt = map(torch.as_tensor, (kappa, theta, sigma, dt))
-    kappa, theta, sigma, dt = map(lambda t: t.to(output), (kappa, theta, sigma, dt))
+    kappa, theta, sigma, dt = map(
+        lambda t: torch.as_tensor(t, dtype=output.dtype, device=output.device),
+        (kappa, theta, sigma, dt),
+    )
 
     randn = torch.randn_like(output)
 
